@@ -9,19 +9,19 @@ PROP = dict(
     assumptions=[
         "core expression language: numbers, strings, booleans, identifiers, let with identifier/array/tuple/literal patterns, "
         "\\p functions, calls, ->, =>, >>, where, orderby (default binder and explicit), + - * ^, comparisons, unary minus, attribute access e.name, cond, &&, ||, "
-        "set/array/tuple/dict constructors, parentheses",
+        "set/array/tuple/dict constructors, relation literals, byte-array literals, parentheses",
         "closures are first-class in let/call/arrow positions but not inside data; patterns are linear; orderby keys are distinct numbers "
         "(anything else is outside the model and checked only for 'no panic')",
         "programs of depth <= 4; closure-call depth <= 60",
     ],
-    level_text="Proof (layer 1, compile/evaluate): 33 Lean theorems about an executable transliteration of syntax/compile.go's decisions "
+    level_text="Proof (layer 1, compile/evaluate): 36 Lean theorems about an executable transliteration of syntax/compile.go's decisions "
                "(compileLet/Arrow/Function, NewCallExpr, ExprAsFunction, ExprExpr for parentheses, literal folding, cond) and of the Eval "
                "methods over values + closures. A simulation theorem (`sim`) over the congruence closure of the documented rewrites gives "
                "`rewrite_inert`: programs related by let = arrow = call, parentheses (also around a function literal operand), "
                "folded vs unfolded literal collections, a let-bound atomic literal substituted capture-avoidingly for its name, the default "
                "binder `\\.`, and branches of &&, ||, cond that a literal guard never selects - at any positions, any number at once - return "
                "the same value or both fail, for all closure-call budgets (if both return). Plus: cond/&&/|| evaluate only the selected branch "
-               "for arbitrary guards (root position, any environment); lexical scope (exact equality); arrays, dicts, strings, booleans equal "
+               "for arbitrary guards (root position, any environment); lexical scope (exact equality); arrays, dicts, strings, booleans, relation literals (any heading order) equal "
                "their spelled-out sets of tuples. Partial for today's compiler where compile-time folding fails (fold_inert_partial + "
                "fold_inert_full_false, known finding). Facts + correspondence (layer 2, text to tree): the precedence tower regenerated from "
                "syntax/arrai.wbnf equals the documented one (decide); printers with minimal / full parentheses, comments and white space are "
@@ -45,5 +45,8 @@ PROP = dict(
            "rel.exprIsValue", "rel.NewSetExpr", "rel.SetExpr.Eval", "rel.NewTupleExpr", "rel.TupleExpr.Eval", "rel.AttrExpr.Apply",
            "rel.NewDictExpr", "rel.DictExpr.Eval", "rel.NewDict", "rel.NewArrayExpr", "rel.ArrayExpr.Eval",
            "rel.CondExpr.Eval", "rel.AndExpr.Eval", "rel.OrExpr.Eval", "rel.BinExpr.Eval", "rel.UnaryExpr.Eval", "rel.CompareExpr.Eval",
-           "rel.addValues", "rel.newArithExpr"],
+           "rel.addValues", "rel.newArithExpr", "rel.NewRelationExpr", "rel.NewAndExpr", "rel.NewOrExpr", "rel.NewDotExpr",
+           "rel.DotExpr.Eval", "rel.TupleMapExpr.Eval", "rel.ReduceExpr.Eval", "rel.NewSumExpr", "rel.NewMaxExpr", "rel.NewMinExpr",
+           "syntax.ParseContext.compileRelation", "syntax.ParseContext.compileGet", "syntax.ParseContext.compileCallGet",
+           "syntax.ParseContext.compileBytes"],
 )
